@@ -1,7 +1,7 @@
 (* Model/DispatchC11.v — entry points of the C11 correspondence (Model/DropIn.v).
    An operand is  aware :: fixed :: zone (init :: n :: t1 :: o1 :: ...) ++ [W; fold] ; binary operands are preceded by is_pendulum :: id :: pid. *)
 From Coq Require Import ZArith List Bool String.
-From PV Require Import Lib.PyBase Spec.Cal Spec.Zone Spec.NativeDT Spec.TdFloat Model.TzConvert Model.TzDispatch Gen.Classes Model.DropIn.
+From PV Require Import Lib.PyBase Spec.Cal Spec.Zone Spec.NativeDT Spec.TdFloat Model.TzConvert Model.TzDispatch Gen.Classes Model.DropIn Model.DropInCfg.
 Import ListNotations.
 Open Scope Z_scope.
 
@@ -48,6 +48,28 @@ Definition owner_code (s : string) : Z :=
 
 Definition date_ops (n1 n2 : Z) : list Z :=
   [Z.b2z (n1 =? n2); Z.b2z (negb (n1 =? n2)); Z.b2z (n1 <? n2); Z.b2z (n1 <=? n2); Z.b2z (n1 >? n2); Z.b2z (n1 >=? n2)].
+
+(* a history of configuration steps: 0 = set_local_timezone() | 1 :: zone = set_local_timezone(z) | 2 :: zone = entering test_local_timezone(z) |
+   3 = leaving it | 4 = a rejected configuration call *)
+Fixpoint parse_steps (n : nat) (l : list Z) : option (list step * list Z) :=
+  match n with
+  | O => Some ([], l)
+  | S n' =>
+    match l with
+    | 0 :: r => option_map (fun p => (SetLocalTz None :: fst p, snd p)) (parse_steps n' r)
+    | 3 :: r => option_map (fun p => (TestExit :: fst p, snd p)) (parse_steps n' r)
+    | 4 :: r => option_map (fun p => (Rejected :: fst p, snd p)) (parse_steps n' r)
+    | k :: r =>
+      match parse_zone r with
+      | Some (z, r') =>
+        if k =? 1 then option_map (fun p => (SetLocalTz (Some z) :: fst p, snd p)) (parse_steps n' r')
+        else if k =? 2 then option_map (fun p => (TestEnter z :: fst p, snd p)) (parse_steps n' r')
+        else None
+      | None => None
+      end
+    | [] => None
+    end
+  end.
 
 Definition dispatch (fn : Z) (args : list Z) : list Z :=
   match fn, args with
@@ -148,6 +170,36 @@ Definition dispatch (fn : Z) (args : list Z) : list Z :=
       | _, _, _ => [-2]
       end
     | _ => [9]
+    end
+  | 14 (* dt_astz_cfg *), _ =>
+    (* args = system zone ++ nsteps :: steps ++ [W; f] ++ fixed2 :: zone2 ++ [kind] ; the receiver is NAIVE.
+       answer: the astimezone result and utcoffset of pendulum.local_timezone() (after the history) at the UTC second W / 10^6 *)
+    match parse_zone args with
+    | Some (sys, n :: r) =>
+      match parse_steps (Z.to_nat n) r with
+      | Some (h, W :: f :: fx2 :: r2) =>
+        match parse_zone r2 with
+        | Some (z2, [kind]) =>
+          let c := run_cfg cfg0 h in
+          let x := mkdtv W (zb f) None in
+          match std_lookup "DateTime" "astimezone" with
+          | Some (0, _) =>
+            match pd_astimezone_naive sys c x (mktzi 2 (zb fx2) z2) (kind =? 0) with
+            | Ok (t, v, keeps) => [0; tag_code t; v_wall v; Z.b2z (v_fold v); off_or_none v; Z.b2z keeps; off_utc (pd_local_timezone sys c) (sec W)]
+            | Raise e => [1; exn_code e; off_utc (pd_local_timezone sys c) (sec W)]
+            end
+          | _ => [-2]
+          end
+        | _ => [9]
+        end
+      | _ => [9]
+      end
+    | _ => [9]
+    end
+  | 15 (* fmt_route *), _ =>
+    match std_lookup "DateTime" "__format__", std_lookup "Date" "__format__", std_lookup "Time" "__format__" with
+    | Some (0, _), Some (0, _), Some (0, _) => [0; fmt_route args; native_fmt_route args]
+    | _, _, _ => [-2]
     end
   | 12 (* std_entry *), [i] =>
     match nth_error std_table (Z.to_nat i) with
